@@ -52,11 +52,14 @@ func build(c cfg, opts model.Options) *rux.Router {
 	}
 	if c.customNA {
 		r.NotAllowed(func(c *rux.Context) {
-			al, _ := c.SafeGet(rux.CTXAllowedMethods).([]string)
-			al = append([]string{}, al...)
+			own, _ := c.SafeGet(rux.CTXAllowedMethods).([]string)
+			al := append([]string{}, own...)
 			sort.Strings(al)
 			c.SetStatus(405)
 			c.WriteString("NA:" + strings.Join(al, ","))
+			for i := range own { // the handler filters / rewrites the list it was given in place
+				own[i] = strings.ToLower(own[i])
+			}
 		})
 	}
 	return r
@@ -89,6 +92,10 @@ func checkProbe(r *rux.Router, c cfg, method, path string) string {
 		got := sortedCopy(alm)
 		if strings.Join(got, ",") != strings.Join(res.Allowed, ",") {
 			return fmt.Sprintf("Match lookup#%d: allowed methods %v: %s", rep, got, ctx)
+		}
+		// the slice belongs to the caller now: whatever it does to it stays its own business
+		for i := range alm {
+			alm[i] = "overwritten-by-the-caller-of-Match"
 		}
 	}
 	rec := serve(r, method, path)
